@@ -65,6 +65,10 @@ def run(ctx):
                 f = cfg.false_of(c)
                 if f is not None and cfg.inevitably_raises(f.id):
                     r.ok("%s: guard at line-free site '%s' - strict arm raises" % (m.short, norm(q.stmt_of(n))[:50]))
+                elif _strict_conjunct_guard(ctx, m, n):
+                    # `if <A> and not lenient and <B>: raise` in any conjunct order: the other conjuncts do not
+                    # depend on the mode, so a strict run that does not raise had the conjunction false as well
+                    r.ok("%s: 'not lenient' is a conjunct of a test whose body raises ('%s')" % (m.short, norm(q.stmt_of(n))[:50]))
                 else:
                     r.fail(m, n, "guard " + norm(q.stmt_of(n))[:80], "the strict arm of this 'lenient' test does not inevitably raise: strict and lenient "
                            "parsing can both succeed with different results")
@@ -270,6 +274,32 @@ def run(ctx):
                  "ended in an error (same rule as C05-R1)", reference=2)
     scratch_rule(ctx, r, parse)
     return ctx.results
+
+
+def _strict_conjunct_guard(ctx, m, name_node):
+    """``name_node`` (the Name 'lenient') is the operand of a `not` that is a top-level conjunct of an if-test
+    whose body inevitably raises and which has no else branch; no other conjunct mentions 'lenient'."""
+    par = getattr(name_node, "_parent", None)
+    if not (isinstance(par, ast.UnaryOp) and isinstance(par.op, ast.Not)):
+        return False
+    top = getattr(par, "_parent", None)
+    conj = [par]
+    if isinstance(top, ast.BoolOp) and isinstance(top.op, ast.And):
+        conj = list(top.values)
+        ifnode = getattr(top, "_parent", None)
+    else:
+        ifnode = top
+    if not isinstance(ifnode, ast.If) or ifnode.orelse:
+        return False
+    if (ifnode.test is not par) and (ifnode.test is not top):
+        return False
+    for c in conj:
+        if c is not par and "lenient" in q.names_in(c):
+            return False
+    cfg = ctx.cfg(m)
+    first = ifnode.body[0]
+    ns = cfg.nodes_of(first) or [cfg.node_of(x) for x in walk_no_nested(first) if cfg.node_of(x) is not None][:1]
+    return bool(ns) and all(n is not None and (n.kind == "raise" or cfg.inevitably_raises(n.id)) for n in ns)
 
 
 def f_in(m, parser):
